@@ -6,7 +6,7 @@ from ..e1 import engine, gen, ref, reduce
 
 RULE = ("programs drawn shape-first (chain/tree/comb/diamond/re-entry comb/staggered/free-form) and decorated; "
         "non-trivial = at least 2 tasks, at least 1 batch flush, and (a nested yield structure, or >= 2 batch kinds, or a shared/re-yielded future); "
-        "distinct = distinct program JSON")
+        "distinct = distinct program JSON. Library tools (deduplicate, alru_cache, async generators, amap/afilter/asorted/amin/amax, aretry, call_with_context) occur as leaves.")
 ASSUMPTIONS = ["item values are a function of (kind, argument) only, so every flush order must give the same answer",
                "flush orders are steered through get_priority tables (a superset of what the default tie-break can produce for batches of different kinds)"]
 
